@@ -19,6 +19,7 @@ RULE = (
     "with a folder the restored checkpoint equals the live calibrator and a further calibrate(2) on it follows the same rule. Non-trivial = convergence strictly inside the "
     "requested batches; distinct by (sequence class, p, verbose, folder, calls)."
     ' A tenth of the signed runs converge on a tiny negative value or -0.0; 15% of the multi-call runs reassign convergence_precision between two calls (the rule is evaluated with the precision in force); 6% of the runs contain a request of 20-30 batches, mostly converging late in that call.'
+    ' With a folder, 60% of the runs go on for one more call and restore the folder a second time in the same process; at p = 0 the rounding boundary 0.5 and its two float neighbours are scripted.'
 )
 ASSUMPTIONS = ["for p >= 1 the rounding boundary 0.5*10^-p is not a float and values within 2% of it are not generated (numpy.round and an exact decimal rounding disagree there); at p = 0 the boundary 0.5, where every float rounding convention in use (half to even) gives 0, and its two neighbours are generated"]
 REQUIRED_COUNTERS = {"boundary_values_at_precision_zero": 4, "second_restores_after_a_further_call": 40, "calls_of_20_batches_or_more": 10, "converging_value_negative_or_minus_zero": 12, "precision_reassigned_between_calls": 15, "same_calibration_ran_longer_in_the_folder_before": 20, "saving_folder_used_before_by_another_run": 30, "runs_with_a_history_reading_sampler": 60, "runs_with_signed_loss": 40, "runs_on_a_three_point_grid": 30, "numpy_integer_precision": 30, "continued_after_restore": 40, "runs": 200, "converged_inside": 60, "never_converged": 30, "no_precision": 10, "verbose_twins": 60, "folder_restores": 40,
